@@ -40,7 +40,7 @@ func (eng) Assumptions() []string {
 func (eng) Cases(seed uint64, tier string) []core.CaseDesc {
 	n := 300
 	if tier == "thorough" {
-		n = 12000
+		n = 200000
 	}
 	var cs []core.CaseDesc
 	for i := 0; i < n; i++ {
